@@ -98,7 +98,7 @@ def run_workers(binname, args, nworkers, outdir, prefix, stall_s=20, total_s=360
             for w in procs:
                 rc = w["p"].poll()
                 try:
-                    cur = open(w["prog"], "rb").read(3200).decode("utf-8", "replace").rstrip()
+                    cur = open(w["prog"], "rb").read(1600 * 40).decode("utf-8", "replace").rstrip()
                 except OSError:
                     cur = ""
                 if rc is None:
@@ -128,18 +128,18 @@ def run_workers(binname, args, nworkers, outdir, prefix, stall_s=20, total_s=360
 def split_chunks(files, outdir, prefix, max_records=40000):
     """Split ND-JSON files into chunks of at most max_records lines; returns chunk paths."""
     chunks = []
+    k = 0
     for f in files:
         if not os.path.exists(f):
             continue
         n = 0
-        k = 0
         cur = None
         with open(f, "rb") as fh:
             for line in fh:
                 if cur is None or n >= max_records:
                     if cur:
                         cur.close()
-                    name = os.path.join(outdir, "%s.%s.c%03d.ndjson" % (prefix, os.path.basename(f).split(".")[1] if "." in os.path.basename(f) else "x", k))
+                    name = os.path.join(outdir, "%s.c%04d.ndjson" % (prefix, k))
                     cur = open(name, "wb")
                     chunks.append(name)
                     k += 1
@@ -391,7 +391,8 @@ class Outcome:
 
 
 def stall_violation(out, st, what_driver):
-    out.add_violation([what_driver, "no-return", st.what[:80]], record=dict(progress=st.progress, worker=st.worker), validator="supervisor")
+    slots = [x.strip() for x in st.progress.split("\n") if x.strip() and not x.strip().endswith("\tidle")]
+    out.add_violation([what_driver, "no-return", st.what[:80]], record=dict(in_flight=slots, worker=st.worker), validator="supervisor")
 
 
 def seed_tier():
